@@ -92,7 +92,12 @@ class SimFS(fs.base.FS):
         f = self.fault
         if f is not None and self.fired is None and f.get("at") == self.ops:
             self.fired = {"op": op, "path": path, "index": self.ops, "kind": f["kind"]}
-            if f["kind"] == "io":
+            # a torn read of an opaque data/image file would be cached verbatim by
+            # the lazy loader (the *disk* delivered different bytes - not a change
+            # made by the code under test), so torn reads are only simulated for
+            # parsed files (.glif/.plist/.fea); elsewhere the read fails with EIO
+            if f["kind"] == "io" or not path.endswith((".glif", ".plist", ".fea")):
+                self.fired["kind"] = "io"
                 raise InjectedIOError(path, op)
             return "short"
         return None
